@@ -8,12 +8,23 @@
 //! plus `SERVICE_NAME` / `NamedService::NAME`.  `e2e` cases drive the *compiled* generated
 //! clients of the build-time pool against the compiled generated servers.  `regen` runs the real
 //! `codegen` binary on a scratch copy of the repo and byte-compares with the committed files.
+//!
+//! Case kinds: `gen`, `manual`, `prost`, `srv`, `e2e`, `regen` (this file) and, from the dimension
+//! audit aC11 (`c11_x.rs`, see its header): `px` (descriptor SETS × public entry points of the prost
+//! front end × the remaining builder knobs), `gx` (`CodeGenBuilder` with deprecated / commented
+//! methods, attributes, `disable_comments`), `gseq` (one `CodeGenBuilder` value with a history),
+//! `mx` (`manual::Builder::compile` on several services), `cseq` (compiled generated clients:
+//! constructors × call histories), `cmt` (committed files against their own descriptor sets).
 use crate::c10::pool::{self, Built, Ev, Handler, Reg, Wrap, POOL};
 use crate::common::*;
 use proc_macro2::TokenStream;
 use quote::ToTokens;
 use std::path::{Path, PathBuf};
 use syn::visit::Visit;
+
+/// dimension audit (aC11): case kinds `px`, `gx`, `gseq`, `mx`, `cmt` (see the header of that file)
+#[path = "c11_x.rs"]
+mod x;
 
 // ---------------------------------------------------------------------------------------------
 // descriptors
@@ -1532,6 +1543,8 @@ pub fn generate(tier: &str, rng: &mut Rng) -> Vec<String> {
         let api = if rng.chance(1, 2) { "routes" } else { "builder" };
         out.push(e2e_line(api, *rng.pick(&Wrap::ALL), &order, i, j, rng.below(40) as usize));
     }
+    // ---- dimension audit (aC11): descriptor sets, entry points, knobs, builder histories
+    out.extend(x::generate_x(tier, rng));
     out
 }
 
@@ -1544,6 +1557,6 @@ pub fn execute(case: &str) -> String {
         "e2e" => run_e2e(&t),
         "srv" => run_srv(&t),
         "regen" => run_regen(),
-        _ => "bad-case".into(),
+        _ => x::execute_x(&t).unwrap_or_else(|| "bad-case".into()),
     }
 }
